@@ -32,6 +32,8 @@
 #include "qtlogger/qtlogger.h"
 #endif
 #include <QCoreApplication>
+#include <QDir>
+#include <QFile>
 #include <atomic>
 #include <cstring>
 #include <iostream>
@@ -323,6 +325,50 @@ int main(int argc, char **argv)
                     if (p & 1) b.process(m); else a.process(m);
                 });
             for (auto &t : ths) t.join();
+        } else if (mode == "filesink") {
+            // round 8: a REAL file sink behind the recording sink (fluent sendToFile: the plain FileSink), a formatter that yields the
+            // EMPTY text for every fifth message (a blank line is a delivery too): after the run the file must hold exactly one line
+            // per delivery, every producer's lines in its program order
+            const QString fpath = QDir::tempPath() + QStringLiteral("/h_conc_%1_%2.log").arg(getpid()).arg(seed);
+            QFile::remove(fpath);
+            long lines = 0, blank = 0, bad = 0, disorder = 0;
+            {
+                OwnThreadHandler<SimplePipeline> h;
+                h.addSeqNumber();
+                h << QSharedPointer<RandomWork>::create() << QSharedPointer<EnterExitSink>::create();
+                h.format([](const LogMessage &lm) { int p, i; parse(lm, p, i); return i % 5 == 2 ? QStringLiteral("") : lm.message(); });
+                h.sendToFile(fpath);
+                for (int p = 0; p < n; p++)
+                    ths.emplace_back(producer, p, [&h](int p, int i) {
+                        QMessageLogContext ctx("filesink.cpp", i, "void filesink()", "default");
+                        LogMessage m((i & 1) ? QtWarningMsg : QtInfoMsg, ctx, QString::number(p) + QLatin1Char(' ') + QString::number(i));
+                        h.process(m);
+                    });
+                for (auto &t : ths) t.join();
+                h.flush();
+            }
+            {
+                QFile f(fpath);
+                std::vector<int> last(size_t(n), -1), count(size_t(n), 0);
+                if (f.open(QIODevice::ReadOnly)) {
+                    while (!f.atEnd()) {
+                        const QByteArray l = f.readLine();
+                        if (!l.endsWith('\n')) { bad++; continue; }
+                        lines++;
+                        if (l.size() == 1) { blank++; continue; }
+                        int p = -1, i = -1;
+                        if (sscanf(l.constData(), "%d %d", &p, &i) != 2 || p < 0 || p >= n || i < 0 || i >= per || i % 5 == 2) { bad++; continue; }
+                        if (i <= last[size_t(p)]) disorder++;
+                        last[size_t(p)] = i; count[size_t(p)]++;
+                    }
+                }
+                QFile::remove(fpath);
+            }
+            std::ostringstream ex;
+            ex << " file_lines=" << lines << " file_blank=" << blank << " file_bad=" << bad << " file_disorder=" << disorder;
+            dump_run(ex.str().c_str());
+            ths.clear();
+            continue;
         } else if (mode == "pattern") {
             Logger lg;
             OwnThreadHandler<SimplePipeline> audit;
